@@ -62,3 +62,50 @@ package callbacks
 //@     modifies elems(hs)
 //@     invariant[hs_same] arr(hs) == arr(pre(hs)) && off(hs) == off(pre(hs)) && cap(hs) == cap(pre(hs)) && len(hs) <= $i
 //@     invariant[subset] forall(i int :: 0 <= i && i < len(hs) ==> exists(j int :: 0 <= j && j < $i && hs[i] == all[j]))
+
+// ---------------------------------------------------------------------------------------------------
+// inject.go — every selected handler is invoked exactly once per timing, with the manager's run info (C10)
+// ---------------------------------------------------------------------------------------------------
+
+//@ func OnStartHandle
+//@   props C10
+//@   requires forall(k int :: 0 <= k && k < len(handlers) ==> handlers[k] != nil)
+//@   ghost calls int = 0
+//@   at call handlers[i].OnStart: assert[each_handler_once_in_reverse_order_with_its_run_info] @C10 i == len(handlers) - 1 - calls && arg1 == runInfo && arg2 == box(input)
+//@   at call handlers[i].OnStart: ghost calls++
+//@   ensures[all_handlers_called] @C10 calls == len(handlers) && box(result1) == box(input)
+//@   loop 1:
+//@     invariant[progress] calls == len(handlers) - 1 - i && -1 <= i && i < len(handlers)
+
+//@ func OnEndHandle
+//@   props C10
+//@   requires forall(k int :: 0 <= k && k < len(handlers) ==> handlers[k] != nil)
+//@   ghost calls int = 0
+//@   at call handler.OnEnd: assert[each_handler_once_in_order_with_its_run_info] @C10 handler == handlers[calls] && arg1 == runInfo && arg2 == box(output)
+//@   at call handler.OnEnd: ghost calls++
+//@   ensures[all_handlers_called] @C10 calls == len(handlers) && box(result1) == box(output)
+//@   loop 1:
+//@     invariant[progress] calls == $i
+
+//@ func OnErrorHandle
+//@   props C10
+//@   requires forall(k int :: 0 <= k && k < len(handlers) ==> handlers[k] != nil)
+//@   ghost calls int = 0
+//@   at call handler.OnError: assert[each_handler_once_in_order_with_its_run_info] @C10 handler == handlers[calls] && arg1 == runInfo && arg2 == err
+//@   at call handler.OnError: ghost calls++
+//@   ensures[all_handlers_called] @C10 calls == len(handlers) && result1 == err
+//@   loop 1:
+//@     invariant[progress] calls == $i
+
+//@ func OnWithStreamHandle
+//@   props C10 C19
+//@   requires cpy != nil && handle != nil
+//@   after call cpy: assume len(result) == len(handlers) + 1
+//@   note assumed: the copy function (StreamReader.Copy / streamReader.copy) returns exactly the requested number of readers (their contracts ensure it)
+//@   ghost calls int = 0
+//@   at call handle: assert[each_handler_gets_its_own_copy] @C10,C19 arg1 == handlers[calls] && box(arg2) == box(inOuts[calls])
+//@   at call handle: ghost calls++
+//@   ensures[all_handlers_called] @C10 calls == len(handlers)
+//@   ensures[no_handlers_no_copy] len(handlers) == 0 ==> box(result1) == box(inOut)
+//@   loop 1:
+//@     invariant[progress] calls == $i && len(inOuts) == len(handlers) + 1
